@@ -1,7 +1,11 @@
 /- The fact values the C16 theorems are proved for (and the oracle runs with). -/
 import EinoV.Model.C16
+import EinoV.Model.C16Keys
 namespace EinoV.Expected.C16
 def facts : EinoV.C16.Facts :=
   { typeCmpIdentity := true, typeCmpImplements := false, strip := 1, passSubPathIsError := true, nestedCopies := true,
     designateCopies := true }
+/-- both closures of both key wrappers (`WithInputKey`, `WithOutputKey`) pass `opts...` on -/
+def keyFacts : EinoV.C16.KeyFacts :=
+  { inKeyFwdInvoke := true, inKeyFwdTransform := true, outKeyFwdInvoke := true, outKeyFwdTransform := true }
 end EinoV.Expected.C16
